@@ -16,7 +16,8 @@ from pyvc.api import (contract, lemma, Int, Bool, Str, Dict, SeqOf, Rec, Opt, Op
                       uf, dict_put)
 from contracts._common import ViolationT, PathT, path_str, path_name
 from contracts.c09_paths import path_parts, mkpath
-from contracts.c14_collect import ParserT, hard_excluded, ign_now, ign_fresh, cache_after, cache_coherent
+from contracts.c14_collect import (ParserT, hard_excluded, ign_now, ign_fresh, cache_after, cache_coherent, matches_spec,
+                                   below_root, path_rel)
 
 O = "src/orchestrator/core.py::"
 BASE = "src/core/base.py::"
@@ -41,18 +42,24 @@ fin_out = uf("rule_finalize_out", [Int, EvT], Viols)
 fin_ev = uf("rule_finalize_evidence", [Int, EvT], EvT)
 walk_files = uf("walk_files", [PathT, Bool], SeqOf(PathT))
 
-# ---- language detection is a C15 target (contracts/c15_language.py); until that file exists: an assumed stand-in
+# ---- language detection is a C15 target (contracts/c15_language.py); while that file is unavailable: an assumed stand-in
 try:
     from contracts.c15_language import detect_language_spec as lang_of  # noqa: F401
-except Exception:  # noqa
+    C15_AVAILABLE = True
+except BaseException:  # noqa
+    C15_AVAILABLE = False
     lang_of = uf("detected_language", [PathT], Str)
-    if LD + "detect_language" not in api.REGISTRY:
-        @contract(LD + "detect_language", props=["C10", "C14"], types=dict(file_path=PathT), returns=Str,
-                  assumed="stand-in until contracts/c15_language.py registers the verified contract: the language is a "
-                          "function of the path (and of the file's first line in the FS snapshot)")
-        class DetectLanguageStandIn:
-            def value(file_path):
-                return lang_of(file_path)
+
+
+class DetectLanguageStandIn:
+    def value(file_path):
+        return lang_of(file_path)
+
+
+if not C15_AVAILABLE and LD + "detect_language" not in api.REGISTRY:
+    contract(LD + "detect_language", props=["C10", "C14"], types=dict(file_path=PathT), returns=Str,
+             assumed="stand-in while contracts/c15_language.py is unavailable: the language is a function of the path (and of "
+                     "the file's first line in the FS snapshot)")(DetectLanguageStandIn)
 
 
 # =================================================================== interface contracts (assumed)
